@@ -4,6 +4,7 @@ import glob, json, os, re
 
 VERIF = os.path.dirname(os.path.dirname(os.path.abspath(__file__)))
 rows = []
+HIST = json.load(open(os.path.join(VERIF, "seeded", "HISTORY.json"))) if os.path.exists(os.path.join(VERIF, "seeded", "HISTORY.json")) else {}
 for mp in sorted(glob.glob(os.path.join(VERIF, "seeded", "*", "meta.json"))):
     m = json.load(open(mp))
     name = m["name"]
@@ -17,8 +18,8 @@ for mp in sorted(glob.glob(os.path.join(VERIF, "seeded", "*", "meta.json"))):
                     what = line
                     break
     what = re.sub(r"\s+", " ", what)[:110]
-    rows.append((name, m["breaks_property"], ", ".join(m.get("checks_fired", [])) or "—", ", ".join(m.get("rules_reporting", []))[:70], m.get("first_seen", ""), what))
-print("| change | property | checks that fire | reporting rules | note | what it does |")
+    rows.append((name, m["breaks_property"], ", ".join(m.get("checks_fired", [])) or "—", ", ".join(m.get("rules_reporting", []))[:70], HIST.get(name, "caught by the checks as they stood"), what))
+print("| change | property | checks that fire | reporting rules | history | what it does |")
 print("|---|---|---|---|---|---|")
 for r in rows:
     print("| " + " | ".join(x.replace("|", "\\|") for x in r) + " |")
